@@ -9,12 +9,15 @@ import (
 	"encoding/json"
 	"fmt"
 	"math"
+	"os"
+	"os/exec"
 	"runtime"
 	"sort"
 	"strconv"
 	"strings"
 	"sync"
 	"time"
+	_ "time/tzdata" // zones for the host-zone child processes even where the host has no zoneinfo
 
 	"rare/pkg/expressions"
 	"rare/pkg/expressions/stdlib"
@@ -40,6 +43,10 @@ type c18In struct {
 	// the format argument the implementation gets when it is to auto-detect the layout: omit | empty | cache | auto
 	// (the model is given Fmt, the layout the text was written in)
 	Detect string `json:"detect,omitempty"`
+	// the tz argument is left out of the expression (it defaults to utc); Tz must be ""
+	OmitTz bool `json:"omit_tz,omitempty"`
+	// the implementation is run in a child process whose HOST zone (TZ) is this one; the expected values do not change
+	HostTz string `json:"host_tz,omitempty"`
 	Conc   int    `json:"goroutines,omitempty"`
 	Reps int `json:"reps,omitempty"`
 }
@@ -214,34 +221,38 @@ func zoneOf(name string) *zoneInfo {
 func quoteArg(s string) string { return "\"" + s + "\"" }
 
 func c18Expr(in c18In) string {
+	tz := " " + quoteArg(in.Tz)
+	if in.OmitTz {
+		tz = ""
+	}
 	switch in.Kind {
 	case "format":
 		if in.OneArg {
 			return "{timeformat {0}}"
 		}
-		return "{timeformat {0} " + quoteArg(in.Fmt) + " " + quoteArg(in.Tz) + "}"
+		return "{timeformat {0} " + quoteArg(in.Fmt) + tz + "}"
 	case "attr":
-		return "{timeattr {0} " + quoteArg(in.Sub) + " " + quoteArg(in.Tz) + "}"
+		return "{timeattr {0} " + quoteArg(in.Sub) + tz + "}"
 	case "time":
 		if in.Detect == "omit" {
 			return "{time {0}}"
 		}
-		return "{time {0} " + quoteArg(detectArg(in)) + " " + quoteArg(in.Tz) + "}"
+		return "{time {0} " + quoteArg(detectArg(in)) + tz + "}"
 	case "bucket":
 		if in.Detect == "omit" {
 			return "{buckettime {0} " + quoteArg(in.Sub) + "}"
 		}
-		return "{buckettime {0} " + quoteArg(in.Sub) + " " + quoteArg(detectArg(in)) + " " + quoteArg(in.Tz) + "}"
+		return "{buckettime {0} " + quoteArg(in.Sub) + " " + quoteArg(detectArg(in)) + tz + "}"
 	case "attrtime":
-		return "{timeattr {time {0} " + quoteArg(in.Fmt) + " " + quoteArg(in.Tz) + "} " + quoteArg(in.Sub) + " " + quoteArg(in.Tz) + "}"
+		return "{timeattr {time {0} " + quoteArg(in.Fmt) + tz + "} " + quoteArg(in.Sub) + tz + "}"
 	case "duration":
 		return "{duration {0}}"
 	case "durationformat":
 		return "{durationformat {0}}"
 	case "roundtrip":
-		return "{time {timeformat {0} " + quoteArg(in.Fmt) + " " + quoteArg(in.Tz) + "} " + quoteArg(in.Fmt) + " " + quoteArg(in.Tz) + "}"
+		return "{time {timeformat {0} " + quoteArg(in.Fmt) + tz + "} " + quoteArg(in.Fmt) + tz + "}"
 	case "reformat":
-		return "{timeformat {time {0} " + quoteArg(in.Fmt) + " " + quoteArg(in.Tz) + "} " + quoteArg(in.Sub) + " " + quoteArg(in.Tz) + "}"
+		return "{timeformat {time {0} " + quoteArg(in.Fmt) + tz + "} " + quoteArg(in.Sub) + tz + "}"
 	case "durroundtrip":
 		return "{duration {durationformat {0}}}"
 	case "durreformat":
@@ -338,6 +349,9 @@ func c18ImplConc(in c18In, args []string, goroutines, reps int) (outs []string, 
 
 // compiles the expression ONCE and evaluates the compiled expression on every argument, in order
 func c18ImplSeq(in c18In, args []string) (outs []string) {
+	if in.HostTz != "" && !inHostChild {
+		return hostOuts(in, args)
+	}
 	outs = make([]string, len(args))
 	c, fail := c18Compile(in)
 	for i, a := range args {
@@ -600,14 +614,38 @@ func oracleDetermined(in c18In, arg string) bool {
 	return true
 }
 
-func c18Case(in c18In) Case {
+// input adjustments decided before the implementation runs
+func settle(in c18In) c18In {
 	loadZones()
+	if in.OmitTz {
+		in.Tz = ""
+	}
+	if in.Conc > 0 {
+		in.HostTz = ""
+	}
 	for _, a := range append([]string{in.Arg}, in.Seq...) {
 		if !oracleDetermined(in, a) {
 			in.Tz, in.Class = "", in.Class+"(abbreviation-lookup-not-determined:utc)"
 			break
 		}
 	}
+	return in
+}
+
+func c18Case(in c18In) Case {
+	in = settle(in)
+	c := c18CaseSettled(in)
+	if in.HostTz != "" {
+		c.Tags = append(c.Tags, "host-tz:"+in.HostTz)
+		c.Nontrivial = true
+	}
+	if in.OmitTz {
+		c.Tags = append(c.Tags, "tz-argument-omitted")
+	}
+	return c
+}
+
+func c18CaseSettled(in c18In) Case {
 	kb, _ := json.Marshal(in)
 	if len(in.Seq) == 0 {
 		coq, o, tags, nontrivial := c18Term(in, c18Impl(in))
@@ -1641,6 +1679,226 @@ func genTextCase(r *Rng) Case {
 	}
 }
 
+// ---------------------------------------------------------------- evaluation under a non-UTC HOST zone
+// The results must not depend on the zone of the machine (only tz=local may). Go reads TZ when the process starts,
+// so the harness re-executes itself as a child with TZ set and lets the child run the implementation; the expected
+// values are the same model values as under UTC.
+var inHostChild bool
+var hostCache = map[string][]string{}
+
+type hostResp struct {
+	Local string     `json:"local"`
+	Off0  int        `json:"offset_at_epoch"`
+	Outs  [][]string `json:"outs"`
+}
+
+func hostChildMain() {
+	inHostChild = true
+	var ins []c18In
+	if err := json.NewDecoder(os.Stdin).Decode(&ins); err != nil {
+		fmt.Fprintln(os.Stderr, err)
+		os.Exit(2)
+	}
+	_, off := time.Unix(0, 0).Zone()
+	resp := hostResp{Local: time.Local.String(), Off0: off}
+	for _, in := range ins {
+		args := in.Seq
+		if len(args) == 0 {
+			args = []string{in.Arg}
+		}
+		resp.Outs = append(resp.Outs, c18ImplSeq(in, args))
+	}
+	json.NewEncoder(os.Stdout).Encode(resp)
+}
+
+// runs the implementation on the inputs in a child process whose local zone is `zone`
+func runHost(zone string, ins []c18In) (*hostResp, error) {
+	exe, err := os.Executable()
+	if err != nil {
+		return nil, err
+	}
+	cmd := exec.Command(exe, "c18-host-child")
+	for _, e := range os.Environ() {
+		if !strings.HasPrefix(e, "TZ=") {
+			cmd.Env = append(cmd.Env, e)
+		}
+	}
+	cmd.Env = append(cmd.Env, "TZ="+zone)
+	b, _ := json.Marshal(ins)
+	cmd.Stdin = strings.NewReader(string(b))
+	cmd.Stderr = os.Stderr
+	out, err := cmd.Output()
+	if err != nil {
+		return nil, err
+	}
+	var resp hostResp
+	if err := json.Unmarshal(out, &resp); err != nil {
+		return nil, err
+	}
+	if resp.Local != zone {
+		return nil, fmt.Errorf("child process runs in local zone %q, wanted %q", resp.Local, zone)
+	}
+	return &resp, nil
+}
+
+func hostKey(in c18In) string {
+	b, _ := json.Marshal(in)
+	return string(b)
+}
+
+// fills the cache for a batch (one child process per zone)
+func hostPrefetch(ins []c18In) {
+	byZone := map[string][]c18In{}
+	var order []string
+	for _, in := range ins {
+		if _, ok := byZone[in.HostTz]; !ok {
+			order = append(order, in.HostTz)
+		}
+		byZone[in.HostTz] = append(byZone[in.HostTz], in)
+	}
+	for _, zone := range order {
+		resp, err := runHost(zone, byZone[zone])
+		for i, in := range byZone[zone] {
+			if err != nil {
+				n := len(in.Seq)
+				if n == 0 {
+					n = 1
+				}
+				outs := make([]string, n)
+				for j := range outs {
+					outs[j] = "<<HOST-ZONE-CHILD-FAILED>> " + err.Error()
+				}
+				hostCache[hostKey(in)] = outs
+			} else {
+				hostCache[hostKey(in)] = resp.Outs[i]
+			}
+		}
+	}
+}
+
+func hostOuts(in c18In, args []string) []string {
+	if outs, ok := hostCache[hostKey(in)]; ok && len(outs) == len(args) {
+		return outs
+	}
+	hostPrefetch([]c18In{in})
+	return hostCache[hostKey(in)]
+}
+
+var hostZones = []string{"America/New_York", "Asia/Kolkata", "Pacific/Chatham"}
+
+// the fixed slice evaluated under every host zone: tz omitted / utc / UTC / explicit zones x timeformat, timeattr, time,
+// buckettime and the nested forms, zone-less layouts included
+func c18HostInputs(r *Rng, tier string) []c18In {
+	loadZones()
+	buildBreakpoints()
+	var ins []c18In
+	instants := []int64{0, -1, 1583020800, 1609459199, 1609459200, 1615705200, 1636264800, 1617235200, 946684800, 4102444799}
+	tzs := []struct {
+		tz   string
+		omit bool
+	}{{"", true}, {"", false}, {"utc", false}, {"UTC", false}, {"America/New_York", false}, {"Europe/Berlin", false}, {"Asia/Kolkata", false}, {"Pacific/Chatham", false}}
+	k := 0
+	for _, hz := range hostZones {
+		add := func(in c18In) {
+			in.HostTz = hz
+			if in.Class == "" {
+				in.Class = "host-zone"
+			}
+			ins = append(ins, in)
+		}
+		for _, tz := range tzs {
+			if zoneOf(tz.tz) == nil {
+				continue
+			}
+			for _, f := range []string{"RFC3339", "ANSIC", "UNIX", "RFC1123", "RFC822Z", "TIMEZONE", "NTZ", "HOUR", "WEEKDAY", "2006-01-02 15:04:05"} {
+				for j := 0; j < 2; j++ {
+					t := instants[(k+j*3)%len(instants)]
+					add(c18In{Kind: "format", Arg: strconv.FormatInt(t, 10), Fmt: f, Tz: tz.tz, OmitTz: tz.omit})
+				}
+				k++
+			}
+			for _, a := range []string{"weekday", "week", "yearweek", "quarter"} {
+				for j := 0; j < 2; j++ {
+					t := instants[(k+j*2)%len(instants)]
+					add(c18In{Kind: "attr", Arg: strconv.FormatInt(t, 10), Sub: a, Tz: tz.tz, OmitTz: tz.omit})
+				}
+				k++
+			}
+			z := zoneOf(tz.tz)
+			for _, f := range []string{"ANSIC", "2006-01-02 15:04:05", "RFC3339", "RFC1123", "UNIX", "RFC1123Z"} {
+				for j := 0; j < 1; j++ {
+					t := instants[(k+j*5)%len(instants)]
+					if t < 0 {
+						t = 86400
+					}
+					str := time.Unix(t, 0).In(z.loc).Format(layoutOf(f))
+					add(c18In{Kind: "time", Arg: str, Fmt: f, Tz: tz.tz, OmitTz: tz.omit})
+					add(c18In{Kind: "bucket", Arg: str, Fmt: f, Sub: seqBuckets[k%len(seqBuckets)], Tz: tz.tz, OmitTz: tz.omit})
+					add(c18In{Kind: "roundtrip", Arg: strconv.FormatInt(t, 10), Fmt: f, Tz: tz.tz, OmitTz: tz.omit})
+					add(c18In{Kind: "attrtime", Arg: str, Fmt: f, Sub: textAttrs[k%len(textAttrs)], Tz: tz.tz, OmitTz: tz.omit})
+					add(c18In{Kind: "reformat", Arg: str, Fmt: f, Sub: "ANSIC", Tz: tz.tz, OmitTz: tz.omit})
+				}
+				k++
+			}
+		}
+		// one compiled expression over a walk through midnight UTC / local and a DST change, tz omitted and utc
+		for _, t := range []int64{1609459200, 1615705200, 1609459200 + 18000, 1609459200 - 19800} {
+			for _, omit := range []bool{true, false} {
+				var seq []string
+				for _, u := range seqInstants(t, 3, false) {
+					seq = append(seq, strconv.FormatInt(u, 10))
+				}
+				add(c18In{Kind: "format", Fmt: "ANSIC", OmitTz: omit, Seq: seq, Arg: seq[0], Dir: "ascending"})
+				add(c18In{Kind: "attr", Sub: "yearweek", OmitTz: omit, Seq: seq, Arg: seq[0], Dir: "ascending"})
+			}
+		}
+		// a seeded random slice of the ordinary cases
+		m := 60
+		if tier == "thorough" {
+			m = 1500
+		}
+		for i := 0; i < m; i++ {
+			var in c18In
+			switch r.Intn(4) {
+			case 0:
+				in = genFormat(r)
+			case 1:
+				in = genAttr(r)
+			case 2:
+				in = genTime(r)
+			default:
+				in = genBucket(r)
+			}
+			if in.OneArg {
+				in.Tz = ""
+			}
+			if r.Chance(1, 3) && !in.OneArg {
+				in.Tz, in.OmitTz = "", r.Bool()
+				if in.Kind == "time" || in.Kind == "bucket" {
+					// the text was printed for another zone: keep the numeric-offset and zone-less ones meaningful
+					in.Class = "host-zone:text-of-another-zone"
+				}
+			}
+			add(in)
+		}
+	}
+	return ins
+}
+
+func c18HostCases(r *Rng, tier string) []Case {
+	ins := c18HostInputs(r, tier)
+	// settle the inputs first (c18Case may move a case to utc), then one child per zone, then the cases
+	for i := range ins {
+		ins[i] = settle(ins[i])
+	}
+	hostPrefetch(ins)
+	cases := make([]Case, len(ins))
+	for i, in := range ins {
+		cases[i] = c18Case(in)
+	}
+	return cases
+}
+
 func c18Gen(r *Rng, n int, tier string) []Case {
 	loadZones()
 	cases := c18Exhaustive(tier)
@@ -1648,6 +1906,7 @@ func c18Gen(r *Rng, n int, tier string) []Case {
 	cases = append(cases, c18SharedExhaustive(r.Fork())...)
 	cases = append(cases, c18OffsetExhaustive()...)
 	cases = append(cases, c18TextExhaustive()...)
+	cases = append(cases, c18HostCases(r.Fork(), tier)...)
 	base := len(cases)
 	for len(cases) < base+n {
 		var in c18In
@@ -1688,6 +1947,10 @@ func c18Gen(r *Rng, n int, tier string) []Case {
 }
 
 func main() {
+	if len(os.Args) > 1 && os.Args[1] == "c18-host-child" {
+		hostChildMain()
+		return
+	}
 	Main(&Prop{
 		Name:   "C18",
 		Header: "From Coq Require Import List NArith ZArith String.\nFrom RareV Require Import Corr.C18Case.\nImport ListNotations.\nOpen Scope N_scope. Open Scope string_scope.\n",
@@ -1698,7 +1961,8 @@ func main() {
 			"sequences (state inside ONE compiled expression reused across instants): {timeformat {0} F Z}, {timeattr {0} A Z}, {buckettime {0} B F Z}, {time {0} F Z} compiled once and evaluated second by second over t-3..t+3 (sometimes up to +-8) around a breakpoint, ascending and descending — exhaustively for every 2020/2021 (+ first/last) DST change of every zone and local new-year / quarter / month starts, and 8% of the random cases; every output of the sequence is compared with the model; a sequence is one case. " +
 			"the value of a compiled expression on a context must depend on that context alone: (a) mixed sequences — each of the ten forms (timeformat, timeattr, time, buckettime, duration, durationformat, {time {timeformat ..}}, {timeformat {time ..}}, {duration {durationformat ..}}, {durationformat {duration ..}}) compiled once and evaluated on the empty context first, then values with repeats, an unparseable value and the empty context again, every step compared with the model value of that context alone; (b) concurrent cases — one compiled expression shared by 4..8 goroutines released by a start barrier, each evaluating its own 10 values 300 times (3000 evaluations per goroutine), every result compared with the value of its context on a freshly compiled expression evaluated alone; the first differing result (if any) is what the model is compared with; every form every run (21 fixed concurrent cases, 20 mixed sequences) plus 4% / 0.5% of the random cases. " +
 			"text-level malformed / edge stream (texts built from fields, not from instants) through time, buckettime and {timeattr {time ..}} for every modelled layout (the ten named date formats, the bucket layouts, three ISO shapes as raw layouts): day past the end of the month (Feb 29 in non-leap years incl. 1900/2100, Feb 30/31, Apr/Jun/Sep/Nov 31) with valid neighbours, month 00/13, day 00/32, hour 24, minute/second 60/61, wrong / unknown weekday and month names, lower-case names, short and over-long fields, and the wall-clock times at / inside / around every 2021 and 2016 DST gap and overlap of every DST zone in the zone-less layouts (expected value: the model, with Go's time.Date supplying the offset the zone rules give to a skipped or repeated wall clock — zone transitions are not modelled); the full-width ISO shapes also with the layout auto-detected by the implementation (format \"\", cache, auto, or left out) and the model given the layout (equality only); every layout x edge every run + 6% of the random cases. " +
-			"distinct = distinct (kind, argument or sequence, format, attribute/bucket, zone); non-trivial = the instant lies within 2 days / 1 week of a calendar or DST breakpoint, or the input is mutated / malformed / a limit.",
+			"host-zone independence: the harness re-executes itself as a child process with TZ = America/New_York, Asia/Kolkata, Pacific/Chatham (Go reads TZ at start; time/tzdata embedded) and the child runs the implementation on a fixed slice — timeformat / timeattr / time / buckettime / {time {timeformat ..}} / {timeattr {time ..}} / {timeformat {time ..}} with the tz argument omitted, \"\", utc, UTC and explicit zones, zone-less layouts (ANSIC, 2006-01-02 15:04:05) included, walks of one compiled expression through midnight and a DST change, plus 60 (thorough 1500) seeded random ordinary cases per host zone; expected values are the same model values as under UTC; tagged host-tz:<zone>. " +
+			"distinct = distinct (kind, argument or sequence, format, attribute/bucket, zone, host zone); non-trivial = the instant lies within 2 days / 1 week of a calendar or DST breakpoint, or the input is mutated / malformed / a limit.",
 		Gen: c18Gen,
 		Replay: func(d json.RawMessage) (Case, error) {
 			var doc struct {
